@@ -42,3 +42,15 @@ CLAIMS["C02"] = ("def-use flow of the wire fields in DiameterAVP.load, identity-
  "exactly one message per iteration from the slices named by the parsed header with loaded=True; registry writer and reader agree on "
  "[vendor][code]; every dictionary class is a direct subclass. Necessary conditions; byte equality of re-serialisation per input is "
  "not decided. The dropped wire flags are a listed known finding.", "DESIGN.md section 4, C02")
+CLAIMS["C12"] = ("path enumeration of decorate_answer as decision tables over the verified family predicates, the E bit and has_avp atoms; CFG must-pass checks",
+ "For every combination of the three failure-family predicates (themselves interval-verified under C17), the E bit and the presence "
+ "tests, decorate_answer copies the three identifiers, copies the Session-Id only under guards and refreshes the length, sets the E flag "
+ "exactly once iff a failure family holds and it is not already set, removes Result-Code iff both result AVPs are present, and never "
+ "reads a dynamic *_avp attribute without a dominating has_avp on the same object. Necessary conditions of the property on all paths; "
+ "values (e.g. experimental result codes) are not decided.", "DESIGN.md section 4, C12")
+CLAIMS["C13"] = ("registry writer/reader table check + path enumeration of callback_route (exactly-one send), handler-coverage and field-flow checks",
+ "Registration and lookup use the same [application id][command code] nesting and key sources; every normal path and the explicit "
+ "BromeliaException exit of callback_route send exactly one message (the decorated handler answer or create_error_answer(request)); "
+ "the handler call is wrapped by except Exception; no unguarded raising operation on handler-supplied objects precedes the send; "
+ "the error answer's six fields flow from the request / local configuration with Result-Code folding to 5012. Run-time table "
+ "contents and cross-process delivery are not decided.", "DESIGN.md section 4, C13")
